@@ -43,6 +43,11 @@ def Benign (d : Draft) (fcOn : Bool) : Stop → Prop
 /-- every regular expression compiles -/
 def RegexOk (env : Env) : Prop := ∀ p s, env.reSearch p s ≠ some none
 
+/- The oracle assumptions of the theorems below: `RegexOk` and `Spec.SetOrderOk` (iterating a set
+   yields a permutation of it: `additionalProperties` looks every extra property it iterates over up
+   in the instance, so an oracle answering with a key that is not in the set would make the model
+   stop with `KeyError`; see `NoCrash.SetOrderCex`). -/
+
 /-- the benign stops (and the guard's marker) contain every way a keyword function may legitimately end -/
 theorem stops_guarded (env : Env) (hre : RegexOk env) (hso : Spec.SetOrderOk env) (d : Draft)
     (fcOn : Bool) :
@@ -150,11 +155,5 @@ theorem entry_points_benign (env : Env) (hre : RegexOk env) (hso : Spec.SetOrder
     rw [hg] at h
     cases es <;> cases stop <;> first | exact h | trivial
 
-#print axioms guarded_no_crash
-#print axioms guard_simulation
-#print axioms no_crash
-#print axioms no_crash_reffree
-#print axioms terminates_reffree
-#print axioms entry_points_benign
 
 end JS.Props.C03
